@@ -365,7 +365,7 @@ fn beh_name(b: &Beh) -> String {
 
 pub fn arb_beh() -> BoxedStrategy<Beh> {
     prop_oneof![
-        5 => (0u8..6, any::<bool>(), any::<bool>(), 0u8..4, 0u8..6).prop_map(|(algs, anon, cookie, realm, nonce)| Beh::Challenge { algs, anon, cookie, realm, nonce }),
+        5 => (0u8..8, any::<bool>(), any::<bool>(), 0u8..4, 0u8..6).prop_map(|(algs, anon, cookie, realm, nonce)| Beh::Challenge { algs, anon, cookie, realm, nonce }),
         3 => (0u8..6, any::<bool>()).prop_map(|(nonce, with_integrity)| Beh::Stale { nonce, with_integrity }),
         8 => Just(Beh::Natural),
         1 => Just(Beh::SuccessUnauth),
